@@ -171,7 +171,7 @@ Inductive outcome :=
 | ONotFound                (* SuitableVariantNotFoundError *)
 | OBadSite
 | ORej (c: nat)            (* the selected class rejects the input (MissingField / InvalidFieldValue of class c surfaces) *)
-| OKeyErr (c: nat)         (* a KeyError leaving class c's from_dict; never leaves a dispatcher (internal) *)
+| OKeyErr (c: nat)         (* a KeyError leaving class c's from_dict surfaces (swallowed only by a no-field loop) *)
 | OMany (cs: list nat)     (* all fields of a DecodeSeq succeeded *)
 | ONotDict                 (* ValueError "Argument for ... discriminated by ... should be a dict instance" *)
 | OCrash.                  (* TypeError from compiling NoneType during a refill (the registry is filled nevertheless) *)
@@ -214,8 +214,7 @@ Section Step.
     let x' := St (classes x0) ((k, r') :: rs) in
     if crash_on_refill s then (x', OCrash) else
     match reg_get t r' with
-    | Some c => let (x2, o) := enter x' c in
-                match o with OKeyErr _ => (x2, ONotFound) | _ => (x2, o) end
+    | Some c => enter x' c                                        (* the call is outside the guarded lookup *)
     | None => (x', ONotFound)
     end.
 
@@ -223,8 +222,7 @@ Section Step.
   Definition field_body (enter: st -> nat -> st * outcome) (top: nat) (codec: bool) (k: rkey) (s: site) (t: tag)
                         (x: st) : st * outcome :=
     match reg_get t (get_reg k (regs x)) with
-    | Some c => let (x1, o) := enter x c in                       (* try: return registry[tag].from_dict(value) *)
-                match o with OKeyErr _ => refill_retry enter top codec k s t x1 | _ => (x1, o) end
+    | Some c => enter x c                                         (* try: unpack = registry[tag].from_dict / return unpack(value) *)
     | None => refill_retry enter top codec k s t x
     end.
 
